@@ -56,8 +56,8 @@ PARTIAL = {
         "object (constructors only); ElasticConstants keeps no derived state (observed: model(model=) on a used "
         'object = fresh object)',
     "ElasticConstants 'isotropic'": "normalized_as('isotropic') goes through the Hill estimates shear()/bulk() (inverse "
-        '6x6 array, property C11): they are parameters of normForm, so elastic_model_normal_form covers the six '
-        "closed-form systems; an isotropic tensor stored as 'isotropic' is checked on the real code only (1e-12)",
+        '6x6 array, property C11): they are parameters of normForm, so elastic_model_normal_form covers the seven '
+        "closed-form systems (cubic, hexagonal, tetragonal, rhombohedral, orthorhombic, monoclinic, triclinic); an isotropic tensor stored as 'isotropic' is checked on the real code only (1e-12)",
     'text codecs': "DataModelDict's JSON/XML codecs are not modelled character by character: JSON is taken as the "
         'identity on the tree, XML as xmlNorm (one-element-list collapse); both observed on every correspondence case',
 }
@@ -71,7 +71,7 @@ RULE = ('seeded systems (1-7 atoms, 1-3 types, tilted / axis-permuted / all-nonz
         'values of rank 0-4, a quarter of them stored with error=; Box; Atoms (30 % with a random selection of the '
         'properties in random order); ElasticConstants generated in the general normal form of every crystal system '
         '(isotropic, cubic, hexagonal, 6- and 7-constant tetragonal, 6- and 7-constant rhombohedral, orthorhombic, '
-        'monoclinic, triclinic; Cij= or named constants) and stored as every crystal_system argument (60 % one in '
+        'monoclinic, triclinic; Cij= or named constants) and stored as every crystal_system argument incl. monoclinic and unknown names (60 % one in '
         'whose normal form the crystal already is); object sessions: one System holding one Box through 3-8 '
         'operations out of reciprocal_vects, position conversions, vects/origin setters, Box.model(model=) into the '
         'existing object, System dumps with box-scaled positions; every case written under one uc.reset_units '
@@ -296,18 +296,19 @@ def gen_sys(rng):
                                   {'key': 'relaxed-system', 'index': 2}])}
 
 
-EC_SYSTEMS = ['triclinic', 'isotropic', 'cubic', 'hexagonal', 'tetragonal', 'rhombohedral', 'orthorhombic']
+# 'monoclinic' is a crystal system of normalized_as since repo fix 877d779 (13 constants kept, the rest zeroed)
+EC_SYSTEMS = ['triclinic', 'isotropic', 'cubic', 'hexagonal', 'tetragonal', 'rhombohedral', 'orthorhombic', 'monoclinic']
 # the crystal systems in whose normal form a tensor of the given form already is (normalized_as must not change it)
 EC_INFORM = {
-    'isotropic': {'isotropic', 'cubic', 'hexagonal', 'tetragonal', 'rhombohedral', 'orthorhombic', 'triclinic'},
-    'cubic': {'cubic', 'tetragonal', 'orthorhombic', 'triclinic'},
-    'hexagonal': {'hexagonal', 'tetragonal', 'rhombohedral', 'orthorhombic', 'triclinic'},
-    'tetragonal6': {'tetragonal', 'orthorhombic', 'triclinic'},
+    'isotropic': {'isotropic', 'cubic', 'hexagonal', 'tetragonal', 'rhombohedral', 'orthorhombic', 'monoclinic', 'triclinic'},
+    'cubic': {'cubic', 'tetragonal', 'orthorhombic', 'monoclinic', 'triclinic'},
+    'hexagonal': {'hexagonal', 'tetragonal', 'rhombohedral', 'orthorhombic', 'monoclinic', 'triclinic'},
+    'tetragonal6': {'tetragonal', 'orthorhombic', 'monoclinic', 'triclinic'},
     'tetragonal7': {'tetragonal', 'triclinic'},
     'rhombohedral6': {'rhombohedral', 'triclinic'},
     'rhombohedral7': {'rhombohedral', 'triclinic'},
-    'orthorhombic': {'orthorhombic', 'triclinic'},
-    'monoclinic': {'triclinic'},
+    'orthorhombic': {'orthorhombic', 'monoclinic', 'triclinic'},
+    'monoclinic': {'monoclinic', 'triclinic'},
     'triclinic': {'triclinic'},
 }
 EC_KEYS = {
@@ -385,7 +386,7 @@ def gen_ec(rng):
         k['C11'] = k['C12'] + 2 * num(10, 75)
     r = rng.random()
     inform = sorted(EC_INFORM[form])
-    cs = rng.choice(inform) if r < 0.6 else (rng.choice(EC_SYSTEMS) if r < 0.97 else rng.choice(['monoclinic', 'cubics']))
+    cs = rng.choice(inform) if r < 0.6 else (rng.choice(EC_SYSTEMS) if r < 0.97 else rng.choice(['Monoclinic', 'cubics']))
     w1, w2 = _gen_cfgs(rng)
     return {'kind': 'ec', 'via': rng.choice(['tree', 'json', 'xml']), 'w1': w1, 'w2': w2, 'form': form,
             'kw': k if (rng.random() < 0.3 and form != 'isotropic') else None, 'C': ec_form_matrix(form, k),
@@ -1388,8 +1389,11 @@ def correspond(ctx):
     finally:
         restore_units()
     replies = ctx.driver.ask_many([l for _, _, l, _ in runs])
-    cover = {}
+    cover, cover_ec = {}, {}
     for (case, r, line, witherr), reply in zip(runs, replies):
+        if case['kind'] == 'ec' and not witherr:
+            key = case['cs'] + (' (crystal in that normal form)' if case['cs'] in EC_INFORM.get(case.get('form'), ()) else '')
+            cover_ec[key] = cover_ec.get(key, 0) + 1
         if witherr:
             ctx.stats.case(f"uc+error:{case['via']}", line, nontrivial=True)
             diffs = compare_err(case, r, reply)
@@ -1410,6 +1414,7 @@ def correspond(ctx):
             ctx.disagree(f"{case['kind']}:{case['via']}", f"{case['kind']} via {case['via']} (write {case['w1']}, "
                          f"read {case['w2']}): " + '; '.join(diffs[:3]), {'case': case, 'line': line, 'diffs': diffs[:10]})
     ctx.extra['unit_choices'] = cover
+    ctx.extra['ec_crystal_system'] = dict(sorted(cover_ec.items()))
 
 
 # ----------------------------------------------------------------------------------------
@@ -1758,7 +1763,8 @@ MANIFEST = {
             'and through XML text (exact exception: a shape-(1,) vector is read as a scalar); Box, Atoms, System (cell, '
             'origin, pbc, symbols, masses, every property incl. box-scaled ones via rel_cart inverse, det != 0) and '
             'ElasticConstants round trips through tree/JSON and XML text; a crystal in the general normal form of the '
-            'requested crystal_system (3 cubic, 5 hexagonal, 7 tetragonal, 7 rhombohedral, 9 orthorhombic constants) '
+            'requested crystal_system (3 cubic, 5 hexagonal, 7 tetragonal, 7 rhombohedral, 9 orthorhombic, 13 monoclinic '
+            'constants) '
             'comes back exactly and the stored representation is stable under re-storing; in every reachable state '
             'of a Box object its conversions are those of its current cell, so an existing Box updated from a model '
             'and a System written with box-scaled positions behave like freshly constructed objects; the object '
